@@ -225,6 +225,89 @@ def add_conv_theorems(u, dim, ls2, ls3, lc):
                               'p.x.v@ * p.x.v@ + p.y.v@ * p.y.v@ <= (10003real / 10000real) * (10003real / 10000real)'], 'C14'))
 
 
+def vecK(cv):
+    return VEC['Vec%d' % (cv.deg + 1)]
+
+
+def add_vector_forms(u, cv):
+    """curve <-> vector of control points, axis flips, matrix * curve (closure-based `map` code; the closures get ghost ensures, D2)"""
+    import affcore
+    P, N = cv.path, cv.name
+    VK = vecK(cv)
+    PT = cv.sh.name
+    g = 'impl<T>%s<T>' % N
+    kf = VK.fields
+    u.take(P, g, 'into_vector', C(ensures=['res.%s == self.%s' % (a, b) for a, b in zip(kf, cv.pts)]), mode='G')
+    u.take(P, g, 'into_vec%d' % (cv.deg + 1), C(ensures=['res.%s == self.%s' % (a, b) for a, b in zip(kf, cv.pts)]), mode='G')
+    h1 = 'impl<T> From<%s<Point<T>>> for %s<T>' % (VK.name, N)
+    h2 = 'impl<T> From<%s<T>> for %s<Point<T>>' % (N, VK.name)
+    u.take_impl(P, h1, mode='G')
+    u.take_impl(P, h2, mode='G')
+    u.from_given.add(norm(h1))
+    u.from_given.add(norm(h2))
+    u.add(P, 'impl<T> FromSpecImpl<%s<Point<T>>> for %s<T> {\n    open spec fn obeys_from_spec() -> bool { true }\n'
+             '    open spec fn from_spec(v: %s<Point<T>>) -> %s<T> { %s { %s } }\n}'
+          % (VK.name, N, VK.name, N, N, ', '.join('%s: v.%s' % (b, a) for a, b in zip(kf, cv.pts))))
+    u.add(P, 'impl<T> FromSpecImpl<%s<T>> for %s<Point<T>> {\n    open spec fn obeys_from_spec() -> bool { true }\n'
+             '    open spec fn from_spec(v: %s<T>) -> %s<Point<T>> { %s }\n}'
+          % (N, VK.name, N, VK.name, VK.lit(['v.%s' % b for b in cv.pts])))
+    u.take(VK.path, 'impl<T>%s<T>' % VK.name, 'map', C(requires=['forall|x: T| call_requires(f, (x,))'],
+                                                       ensures=['call_ensures(f, (self.%s,), res.%s)' % (x, x) for x in kf]), mode='G')
+    gr = 'impl<T: Real> %s<T>' % N
+    for k, a in enumerate(cv.sh.fields):
+        others = [x for x in cv.sh.fields if x != a]
+        clo_new = ('|p: %s<R>| -> (q: %s<R>) ensures q.%s.v@ == -p.%s.v@, %s'
+                   % (PT, PT, a, a, ', '.join('q.%s == p.%s' % (x, x) for x in others)))
+        ens = []
+        for pn in cv.pts:
+            ens += ['res.%s.%s.v@ == -self.%s.%s.v@' % (pn, a, pn, a)] + ['res.%s.%s == self.%s.%s' % (pn, x, pn, x) for x in others]
+        nth = 0
+        u.take(P, gr, 'flipped_' + a, C(ensures=ens, closures=[('|mut p|', clo_new, 'let mut p = p;')]))
+        u.take(P, gr, 'flip_' + a, C(ret=None, ensures=[e.replace('res.', 'final(self).').replace('self.', 'old(self).').replace('final(old(self))', 'final(self)') for e in ens]))
+    # matrix * curve
+    d = cv.dim
+    for layout, alias in (('rows', 'Rows'), ('cols', 'Cols')):
+        # linear: MatD * curve_D
+        ms = mat(d, layout)
+        hdr = 'impl<T> Mul<%s<T>> for %s%d<T> where T: Real + MulAdd<T, T, Output = T>' % (N, alias, d)
+        Mself = SM.of(ms, 'self')
+        pv = SV.of(cv.sh, 'p')
+        img = Mself @ pv
+        clo_new = ('|p: %s<R>| -> (q: %s<R>) ensures %s'
+                   % (PT, PT, ', '.join('q.%s.v@ == %s' % (x, X.verus(img[i])) for i, x in enumerate(cv.sh.fields))))
+        ens = []
+        for pn in cv.pts:
+            pi = Mself @ SV.of(cv.sh, 'rhs.' + pn)
+            ens += ['res.%s.%s.v@ == %s' % (pn, x, X.verus(pi[i])) for i, x in enumerate(cv.sh.fields)]
+        u.take_impl(P, hdr, {'mul': C(ensures=ens, closures=[('|p|', clo_new, '')])})
+        # affine: Mat(D+1) * curve_D through mul_point(_2d)
+        ma = mat(d + 1, layout)
+        fn = 'mul_point_2d' if d == 2 else 'mul_point'
+        hdr = 'impl<T> Mul<%s<T>> for %s%d<T> where T: Real + MulAdd<T, T, Output = T>' % (N, alias, d + 1)
+        Ma = SM.of(ma, 'self')
+        imga = Ma @ pv.ext(ONE)
+        clo_new = ('|p: %s<R>| -> (q: %s<R>) ensures %s'
+                   % (PT, PT, ', '.join('q.%s.v@ == %s' % (x, X.verus(imga[i])) for i, x in enumerate(cv.sh.fields))))
+        ens = []
+        for pn in cv.pts:
+            pi = Ma @ SV.of(cv.sh, 'rhs.' + pn).ext(ONE)
+            ens += ['res.%s.%s.v@ == %s' % (pn, x, X.verus(pi[i])) for i, x in enumerate(cv.sh.fields)]
+        u.take_impl(P, hdr, {'mul': C(ensures=ens, closures=[('|p|', clo_new, '')])})
+
+
+def affine_lemma(deg):
+    """one output coordinate of an affine map commutes with the Bernstein form (partition of unity)"""
+    n = deg + 1
+    xs = [[var('p%d%d' % (k, c)) for c in range(3)] for k in range(n)]
+    m = [var('m%d' % c) for c in range(4)]
+    t = var('t')
+    coord = lambda pt: m[0] * pt[0] + m[1] * pt[1] + m[2] * pt[2] + m[3]
+    lhs = bern(deg, [SV([coord(xs[k])]) for k in range(n)], t)[0]
+    P = [bern(deg, [SV([xs[k][c]]) for k in range(n)], t)[0] for c in range(3)]
+    return L.Lemma('lemma_bezier%d_affine' % deg, [x for r in xs for x in r] + m + [t], [], [lhs.eq(coord(P))],
+                   doc='sum_i B_i(t) (a . p_i + b) == a . P(t) + b')
+
+
 def add_theorems(u, cv, lems):
     N, sh = cv.name, cv.sh
     deg = cv.deg
@@ -241,6 +324,56 @@ def add_theorems(u, cv, lems):
                     'b1.%s.v@ == b2.%s.v@' % (x, x), 'lo.end.%s.v@ == m.%s.v@' % (x, x), 'hi.start.%s.v@ == m.%s.v@' % (x, x),
                     'r1.%s.v@ == r2.%s.v@' % (x, x)]
     u.add(cv.path, thm_fn('thm_bernstein_%s' % cv.mod, ['b: %s<R>' % N, 't: R', 'w: R'], [], body, asserts, 'C14'))
+
+
+def add_mat_theorems(u, cv, la):
+    d = cv.dim
+    N = cv.name
+    PT = cv.sh.name
+    for layout, alias in (('rows', 'Rows'), ('cols', 'Cols')):
+        ms, ma = mat(d, layout), mat(d + 1, layout)
+        fn = 'mul_point_2d' if d == 2 else 'mul_point'
+        Mu, Au = SM.of(ms, 'm'), SM.of(ma, 'a')
+        calls = []
+        for i in range(d):
+            for (Mx, nm, aff) in ((Mu, 'm', False), (Au, 'a', True)):
+                pts = []
+                for pn in cv.pts:
+                    pts += ['b.%s.%s.v@' % (pn, x) for x in cv.sh.fields] + (['0real'] if d == 2 else [])
+                coef = [X.verus(Mx[i, j]) for j in range(d)] + (['0real'] if d == 2 else []) + [X.verus(Mx[i, d]) if aff else '0real']
+                calls.append('crate::%s(%s, %s, t.v@);' % (la.name, ', '.join(pts), ', '.join(coef)))
+        body = ('    let mb = m * b;\n    let l = mb.evaluate(t);\n    let pt = b.evaluate(t);\n    let r = m * pt;\n'
+                '    let ab = a * b;\n    let la = ab.evaluate(t);\n    let ra: %s<R> = a.%s(pt);\n    proof { %s }\n'
+                % (PT, fn, ' '.join(calls)))
+        asserts = ['l.%s.v@ == r.%s.v@' % (x, x) for x in cv.sh.fields] + ['la.%s.v@ == ra.%s.v@' % (x, x) for x in cv.sh.fields]
+        u.add(cv.path, thm_fn('thm_matrix_times_%s_%s' % (cv.mod, layout),
+                              ['m: crate::mat::repr_c::%s::Mat%d<R>' % (ms.major, d), 'a: crate::mat::repr_c::%s::Mat%d<R>' % (ma.major, d + 1),
+                               'b: %s<R>' % N, 't: R'], [], body, asserts, 'C14'))
+
+
+def mat_unit(exp, name, deg, lsd):
+    import affcore
+    u = vec_unit(exp, name, [VEC['Vec2'], VEC['Vec3'], VEC['Vec4']], mats=MATS)
+    veccore.add_conversions(u, only=('Vec2', 'Vec3', 'Vec4'))
+    affcore.add_point_ctors(u)
+    opscore.add_traits(u, ('Clamp', 'Lerp'))
+    opscore.add_float_impls(u, ('Clamp', 'Lerp'))
+    for ms in MATS:
+        matcore.add_mat_struct(u, ms)
+        matcore.add_mat_mul(u, ms)
+        if ms.n == 4:
+            affcore.add_mul_point(u, ms, 'mul_point', VEC['Vec3'], VEC['Vec4'], 1)
+        if ms.n == 3:
+            affcore.add_mul_point(u, ms, 'mul_point_2d', VEC['Vec2'], VEC['Vec3'], 1)
+    la = affine_lemma(deg)
+    u.add_root(la.verus_text('C14'))
+    for dim in (2, 3):
+        cv = Curve(deg, dim)
+        t = leaf('t.v@')
+        u.take(cv.path, 'impl<T: Real> %s<T>' % cv.name, 'evaluate', C(ensures=veq(cv.sh, 'res', bern(deg, cv.points('self'), t))))
+        add_vector_forms(u, cv)
+        add_mat_theorems(u, cv, la)
+    return u, [la]
 
 
 def plan(exp, tier):
@@ -280,6 +413,10 @@ def plan(exp, tier):
         if lm.name != 'lemma_lerp_precise':
             u.add_root(lm.verus_text('C14'))
     p.lemmas += list(all_l.values())
+    for deg in (2, 3):
+        um, lm = mat_unit(exp, 'c14_mat%d' % deg, deg, lsd)
+        p.add_unit('c14_mat%d' % deg, um, ['ops', 'vec', 'quaternion', 'transform', 'mat', 'geom', 'bezier'])
+        p.lemmas += lm
     p.add_unit('c14', u, ['ops', 'vec', 'quaternion', 'transform', 'mat', 'geom', 'bezier'])
-    p.not_decided += ['From<Range> (core::ops::Range field moves), matrix() coefficient form, 2D<->3D conversion, axis flips, Mul<Bezier> for matrices (closure-based `map` code): not yet under contract']
+    p.not_decided += ['From<Range> (core::ops::Range field moves), matrix() coefficient form, 2D<->3D conversion (`map(Into::into)`): not yet under contract']
     return p
